@@ -150,6 +150,33 @@ Proof.
   unfold should_decode. destruct disable, resp_ce as [|x r]; cbn; intuition congruence.
 Qed.
 
+(* status / Location never matter *)
+Lemma decide_resp_independent {enc} (parse_ct : bytes -> ct_parse) (lookup_charset : bytes -> option enc)
+      s1 l1 s2 l2 disable sel resp_ce ct :
+  decide_resp parse_ct lookup_charset s1 l1 disable sel resp_ce ct =
+  decide_resp parse_ct lookup_charset s2 l2 disable sel resp_ce ct.
+Proof. reflexivity. Qed.
+
+Lemma decide_resp_is_decide {enc} (parse_ct : bytes -> ct_parse) (lookup_charset : bytes -> option enc)
+      s l disable sel resp_ce ct :
+  decide_resp parse_ct lookup_charset s l disable sel resp_ce ct = decide parse_ct lookup_charset disable sel resp_ce ct.
+Proof. reflexivity. Qed.
+
+(* a body the transport has decompressed is selected exactly like a body that was never compressed -
+   on every stack; a body nobody decompressed (Content-Encoding still there) is not selected *)
+Lemma decompressed_is_like_plain p ce disable sel ct :
+  should_decode disable sel (ce_at_charset_stage p true ce) ct = should_decode disable sel [] ct.
+Proof. reflexivity. Qed.
+
+Lemma decompression_stack_independent p1 p2 d ce disable sel ct :
+  should_decode disable sel (ce_at_charset_stage p1 d ce) ct =
+  should_decode disable sel (ce_at_charset_stage p2 d ce) ct.
+Proof. reflexivity. Qed.
+
+Lemma not_decompressed_not_selected p ce disable sel ct :
+  ce <> [] -> should_decode disable sel (ce_at_charset_stage p false ce) ct = false.
+Proof. intros H. cbn [ce_at_charset_stage]. apply still_encoded_not_selected. exact H. Qed.
+
 (* the hypothesis on the decoders, as a named predicate for the statements in Properties/C15.v *)
 Definition decoder_ok {enc : Type} (dec_all : enc -> bytes -> bytes) (dec_stream : enc -> list bytes -> bytes) : Prop :=
   forall e chunks, dec_stream e chunks = dec_all e (concat chunks).
